@@ -844,7 +844,7 @@ class ArrayConverter(Converter):
             item_type = (float, int)
         for i, v in enumerate(items):
             if not isinstance(v, item_type):
-                if hasattr(v, '__index__'):
+                if item_type is not str and hasattr(v, '__index__'):
                     items[i] = v.__index__()
                 else:
                     throw(TypeError, 'Cannot store %s item in array of %s' %
